@@ -27,6 +27,7 @@ EXPLANATION = (
     "compression round trip (zstd), relative producer/consumer speed."
     ' (pull-decision-table, closed over consumers) only Session::recv reads the session channel, and every caller of Session::recv accounts for what it takes: End is returned as last or recorded in a flag pull replays, Fail surfaces as an error, a Chunk is returned or staged.'
     ' The Elapsed of a timeout that only borrows a pinned request future (a heartbeat tick) is not a failure of the request; the Elapsed of a timeout that owns the future is.'
+    " Every insert into the session map takes its key from fetch_add of a positive constant on an atomic counter: a stream id is never handed out twice, so a finished stream's late next / cancel cannot land on a later stream."
 )
 ASSUMPTIONS = ["std::sync::mpsc and tokio mpsc channels are FIFO and lossless", "zstd decoding inverts zstd encoding"]
 
@@ -479,6 +480,28 @@ def run(facts, R):
         heads = [(x, 0) for x in okd if any(p_ not in okd for p_ in ch.preds().get(x, []))]
         w = must_cross(ch, heads, return_points(ch), [term_pt(ch, i)], after_start=False)
         R.check(bool(heads) and w is None, "done-gate", ch.path, "a well-formed cancel always releases", "a decodable cancel can return without removing the session", t.get("span"), path=w)
+
+    # ---------------- stream ids are never handed out twice: a finished stream's id stays dead, so a late `next` / `cancel` addressed to it
+    # (every puller sends a trailing best-effort cancel) cannot land on a stream opened afterwards.  Every insert into the session map takes
+    # its key from an atomic counter that only ever counts up (fetch_add by a positive constant), and nothing else writes that counter
+    n_ins = 0
+    for b_ in facts.bodies.values():
+        if not b_.path.startswith(("value_stream::", "<value_stream::")) or "::tests::" in b_.path:
+            continue
+        bs_ = None
+        for i_, t_ in b_.calls():
+            if t_["callee"]["name"] != "insert" or "HashMap" not in t_["callee"]["path"] or len(t_["args"]) < 3:
+                continue
+            bs_ = bs_ or Sym(b_)
+            if "sessions" not in render_n(bs_.op(t_["args"][0])):
+                continue
+            n_ins += 1
+            key = bs_.op(t_["args"][1])
+            okk = is_call(key, "fetch_add") and len(key[2]) > 1 and isinstance(key[2][1], tuple) and key[2][1][0] == "const" and isinstance(key[2][1][1], int) and key[2][1][1] > 0
+            R.check(okk, "done-gate", b_.path, "a stream id is a fresh value of a counter that only counts up",
+                    "a session is registered under %s: an id computed from the live sessions (or anything but a monotone counter) can be the id of a stream that already ended, "
+                    "whose late `next` / `cancel` then acts on the new stream" % render_n(key)[:120], t_.get("span"), "key = fetch_add(counter, +c)")
+    R.floor("done-gate", n_ins, 1, "inserts into the session map")
 
     # ---------------- one-next-per-chunk: `next` is not idempotent (the server advances by one chunk per request it
     # handles), so a puller sends it exactly once per chunk: never re-sent after an error or timeout, and the chunk of
